@@ -71,6 +71,9 @@ type c16Msg struct {
 	PV      int      `json:"pv,omitempty"`      // gated: 0 valid payload, 1 refused by ValidateBasic, 2 refused by the handler
 	V       int      `json:"v,omitempty"`       // gated: payload variant
 	Grantee int      `json:"grantee,omitempty"` // exec
+	Sp      int      `json:"sp,omitempty"`      // leaves: how the sender string is spelled: 0 lower case (canonical), 1 upper case, 2 mixed case (undecodable)
+	NSp     int      `json:"nsp,omitempty"`     // root: spelling of the new root
+	CSp     []int    `json:"csp,omitempty"`     // edit: spelling of each contract entry (missing = 0)
 	C       int      `json:"c,omitempty"`       // wasm: the contract (6 | 7) that is executed by Sender and dispatches Msgs
 	Msgs    []c16Msg `json:"msgs,omitempty"`    // exec, wasm
 }
@@ -190,6 +193,25 @@ func (w *c16World) fundActors(t *testing.T) {
 
 func (w *c16World) addr(i int) sdk.AccAddress { return w.addrs[((i%nActors)+nActors)%nActors] }
 
+// spell writes the bech32 string of actor i the way a message may carry it: lower case (what
+// AccAddress.String() gives), upper case (equally valid bech32), or mixed case (no valid bech32).
+func (w *c16World) spell(i, sp int) string {
+	s := w.addr(i).String()
+	switch sp {
+	case 1:
+		return strings.ToUpper(s)
+	case 2:
+		h := len(s) / 2
+		if up := strings.ToUpper(s[h:]); up != s[h:] {
+			return s[:h] + up
+		}
+		return s[:4] + strings.ToUpper(s[4:])
+	}
+	return s
+}
+
+func sp3(x int) int { return ((x % 3) + 3) % 3 }
+
 func typeURL(kind string) string {
 	switch kind {
 	case "edit":
@@ -217,8 +239,25 @@ func normalise(ms []c16Msg) {
 	for i := range ms {
 		m := &ms[i]
 		m.Sender = ((m.Sender % nActors) + nActors) % nActors
+		m.Sp, m.NSp = sp3(m.Sp), sp3(m.NSp)
+		if m.T != "edit" {
+			m.CSp = nil
+		}
+		if m.T != "root" {
+			m.NSp = 0
+		}
+		if m.T == "exec" || m.T == "wasm" {
+			m.Sp = 0
+		}
 		switch m.T {
 		case "edit":
+			for len(m.CSp) < len(m.Cs) {
+				m.CSp = append(m.CSp, 0)
+			}
+			m.CSp = m.CSp[:len(m.Cs)]
+			for j := range m.CSp {
+				m.CSp[j] = sp3(m.CSp[j])
+			}
 			if m.Action != "add" && m.Action != "remove" {
 				m.Action = "bogus"
 			}
@@ -255,7 +294,7 @@ func normalise(ms []c16Msg) {
 }
 
 func (w *c16World) build(m c16Msg) (sdk.Msg, int) {
-	sender := w.addr(m.Sender).String()
+	sender := w.spell(m.Sender, m.Sp)
 	switch m.T {
 	case "edit":
 		action := map[string]string{"add": "add_contracts", "remove": "remove_contracts"}[m.Action]
@@ -263,15 +302,19 @@ func (w *c16World) build(m c16Msg) (sdk.Msg, int) {
 			action = "bogus_action"
 		}
 		cs := []string{}
-		for _, c := range m.Cs {
-			cs = append(cs, w.addr(c).String())
+		for j, c := range m.Cs {
+			sp := 0
+			if j < len(m.CSp) {
+				sp = m.CSp[j]
+			}
+			cs = append(cs, w.spell(c, sp))
 		}
 		if m.Bad {
 			cs = append(cs, "nibi1notanaddress")
 		}
 		return &sudotypes.MsgEditSudoers{Action: action, Contracts: cs, Sender: sender}, m.Sender
 	case "root":
-		return &sudotypes.MsgChangeRoot{Sender: sender, NewRoot: w.addr(m.New).String()}, m.Sender
+		return &sudotypes.MsgChangeRoot{Sender: sender, NewRoot: w.spell(m.New, m.NSp)}, m.Sender
 	case "gated":
 		switch m.K {
 		case "oracle":
@@ -411,7 +454,11 @@ func (w *c16World) sudoers(t *testing.T) (int, []int) {
 	if err != nil {
 		t.Fatal(err)
 	}
+	// the ACCOUNT a stored string names (the property is about accounts, not about spellings)
 	id := func(a string) int {
+		if acc, err := sdk.AccAddressFromBech32(a); err == nil {
+			a = acc.String()
+		}
 		if i, ok := w.ids[a]; ok {
 			return i
 		}
@@ -611,8 +658,27 @@ func perm(r *Rng, n int) []int {
 // genLeaf: one privileged message from sender (-1: picked among root / listed / removed / former root / anybody)
 func genLeaf(r *Rng, s *shadow, sender int) c16Msg { return genLeafKind(r, s, sender, "") }
 
-// genLeafKind: … of the given kind (edit | root | oracle | infl_edit | infl_toggle | meta; "": any)
+// genSp: how an address field is spelled: mostly lower case, often upper case, now and then undecodable
+func genSp(r *Rng) int { return r.Pick(76, 21, 3) }
+
+// genLeafKind: … of the given kind (edit | root | oracle | infl_edit | infl_toggle | meta; "": any);
+// every address field in a spelling of its own
 func genLeafKind(r *Rng, s *shadow, sender int, kind string) c16Msg {
+	m := genLeafIDs(r, s, sender, kind)
+	m.Sp = genSp(r)
+	if m.T == "root" {
+		m.NSp = genSp(r)
+	}
+	if m.T == "edit" {
+		m.CSp = []int{}
+		for range m.Cs {
+			m.CSp = append(m.CSp, genSp(r))
+		}
+	}
+	return m
+}
+
+func genLeafIDs(r *Rng, s *shadow, sender int, kind string) c16Msg {
 	if sender < 0 {
 		sender = s.pickSender(r)
 	}
@@ -980,7 +1046,42 @@ func openers() []c16Case {
 				{wasm(3, 7, gated("oracle", 7))},
 				{wasm(2, 6, c16Msg{T: "root", Sender: 6, New: 1}), wasm(3, 7, gated("meta", 7))},
 				{wasm(2, 6, gated("oracle", 6))}}},
+		// address spellings: the same history means the same whether the addresses are written in lower or in
+		// (valid) upper case — removal of a listed account named in upper case, hand-over to a root named in
+		// upper case followed by its gated ops in both spellings, the root writing itself in upper case,
+		// upper-case entries added; a mixed-case string is refused
+		{Root: 0, Contracts: []int{1, 2}, Owners: []int{2, 3}, Grants: []c16Grant{}, Txs: [][]c16Msg{
+			{c16Msg{T: "edit", Action: "remove", Sender: 0, Cs: []int{1}, CSp: []int{1}}},
+			{gated("oracle", 1)},
+			{up(gated("oracle", 2))},
+			{c16Msg{T: "edit", Action: "add", Sender: 0, Sp: 1, Cs: []int{3}}},
+			{gated("meta", 3)},
+			{c16Msg{T: "edit", Action: "add", Sender: 0, Cs: []int{4}, CSp: []int{1}}},
+			{gated("infl_toggle", 4)},
+			{c16Msg{T: "root", Sender: 0, New: 5, NSp: 1}},
+			{gated("oracle", 5)},
+			{up(gated("infl_edit", 5))},
+			{gated("oracle", 0)},
+			{c16Msg{T: "edit", Action: "remove", Sender: 5, Sp: 1, Cs: []int{2, 4}, CSp: []int{1, 0}}},
+			{gated("oracle", 2)}, {gated("oracle", 4)},
+			{c16Msg{T: "root", Sender: 5, Sp: 1, New: 0}},
+			{c16Msg{T: "edit", Action: "add", Sender: 0, Cs: []int{1}, CSp: []int{2}}},
+			{c16Msg{T: "root", Sender: 0, Sp: 2, New: 1}},
+			{exec(0, c16Msg{T: "root", Sender: 0, New: 1, NSp: 2})},
+			{wasm(2, 6, c16Msg{T: "gated", K: "oracle", Sender: 6, Sp: 1})},
+			{c16Msg{T: "edit", Action: "add", Sender: 0, Cs: []int{6}, CSp: []int{1}}},
+			{wasm(2, 6, c16Msg{T: "gated", K: "oracle", Sender: 6, Sp: 1})}}},
 	}
+}
+
+// up: the same leaf with every address field in upper case
+func up(m c16Msg) c16Msg {
+	m.Sp, m.NSp = 1, 1
+	m.CSp = nil
+	for range m.Cs {
+		m.CSp = append(m.CSp, 1)
+	}
+	return m
 }
 
 func wasm(sender, c int, ms ...c16Msg) c16Msg {
